@@ -554,6 +554,8 @@ var prDedicated = []string{
 	// "((" is the arithmetic command at every depth: a subshell or $( ) that starts with one is written with a blank
 	"( ((1)) )\n", "( ((1)) | a )\n", "x=$( ((1)))\n", "echo `((1))` $( ((2)); b )\n", "( ! ((1)) )\n", "( ( ((1)) ) )\n", "( ((1)); ((2)) ) >f\n", "f() ( ((1)) )\n",
 	"( case x in a ) ;; esac ) ; ((1))\n", "( case x in a) ((1)) ;; (b) ( ((2)) ) ;; esac; ((3)) )\n", "( (( $( (a) ) + $( ((1)) ) )) )\n",
+	// the empty delimiter: an empty line ends the body
+	"cat <<''\nx\n\n", "cat <<\"\"\n\n", "cat <<-''\n\tx\n\t\n", "cat <<'' <<E\na\\\n\n\nE\n", "( cat <<''\n$x\n\n)\n", "echo $(cat <<''\nx\n\n)\n", "if cat <<''; then b; fi\nx\n\n",
 	// after a redirection the next word is an ordinary command name, even if it spells a reserved word
 	">f if\n", ">f ! a\n", "<f { a\n", ">f for\n", "2>&1 while x\n", ">f case\n", "<<E done\nbody\nE\n", ">f then b | >g fi\n", "x=1 >f do\n", ">f x=1 }\n",
 	// delimiters and patterns that need care when they are written back
